@@ -283,7 +283,10 @@ pub fn program_set(set: &str) -> Vec<Program<WRandFam>> {
             out.push(Program::fork_join((), ms, idx.iter().map(|&i| bodies[i].clone()).collect()));
         }
     }
-    for b in &bodies {
+    for (i, b) in bodies.iter().enumerate() {
+        if !thorough && i % 4 != 0 {
+            continue;
+        }
         out.push(Program::fork_join((), vec![StdNext], vec![b.clone(), vec![Load], vec![DrawStore]]));
     }
     out.sort_by_key(|p| p.size());
